@@ -109,6 +109,7 @@ def process(prop, m, checks):
             "verify": "scratch worktree of /repo HEAD: demo.py without patch (exit 0 expected), git apply patch.diff, demo.py (non-zero expected), full pytest suite compared with BASELINE.json stable_pass",
             "detect": "quick tier of the listed checks with MC_REPO pointing at a scratch worktree holding the patch",
         },
+        "base_commit": sh("git -C /repo rev-parse --short HEAD").stdout.strip(),
         "detection": dres,
         "detected_by": sorted(c for c, r in dres.items() if r["exit"] == 1),
         "kept": bool(v.get("confirmed")),
